@@ -72,7 +72,7 @@ func (g *gstate) ancestor(id, k int) int {
 // straddlePattern: two forks straddling the prune depth, a Clean with a small depth, then heavy headers on
 // the short stale fork (it must still be extendable and able to overtake).
 func (g *gstate) straddlePattern() {
-	if g.forks > 6 || !g.byID[g.focus].alive {
+	if g.forks > 6 || !g.byID[g.focus].alive || g.maxd > 5 { // the Clean depth must stay above the fork-depth limit
 		return
 	}
 	tip := g.focus
@@ -115,7 +115,7 @@ func (g *gstate) straddlePattern() {
 // forkFirstPattern: the first header of a fork becomes part of the best chain, its competitor is marked
 // invalid (the old branch is trimmed), the chain grows and a Clean with a small depth prunes the fork point.
 func (g *gstate) forkFirstPattern() {
-	if g.forks > 7 || !g.byID[g.focus].alive || g.byID[g.focus].height < 2 {
+	if g.forks > 7 || !g.byID[g.focus].alive || g.byID[g.focus].height < 2 || g.maxd > 5 {
 		return
 	}
 	comp := g.focus
@@ -157,6 +157,9 @@ func (g *gstate) forkFirstPattern() {
 // below it; Save, Load with a small depth, then the side branches are extended and overtake.
 func (g *gstate) loadForkPattern() {
 	if g.forks > 6 || !g.byID[g.focus].alive {
+		return
+	}
+	if g.maxd > 5 && !g.r.Chance(6) { // the pattern needs depth+ headers: keep the long ones rare
 		return
 	}
 	tip := g.focus
